@@ -950,6 +950,8 @@ def ptf_case(draw):
     n = draw(st.one_of(st.integers(2, 6), st.integers(7, 30)))
     fls = sorted(draw(st.lists(st.integers(0, 510), unique=True, min_size=n, max_size=n)))
     first_cruise = draw(st.integers(0, n - 2))
+    # the top levels may lie above the climb ceiling: their CLIMB cell is blank while CRUISE/DESCENT are filled in
+    last_climb = n - 1 if draw(st.booleans()) else draw(st.integers(1, n - 1))
     dec = draw(st.sampled_from([0, 1, 1, 2, 2, 3]))
     rows = []
     for k, fl in enumerate(fls):
@@ -957,6 +959,8 @@ def ptf_case(draw):
         if k >= first_cruise:
             cr = [_num(draw, 50, 650, 0)] + [_num(draw, 0.01 if dec else 1, 999, dec) for _ in range(3)]
         cl = [_num(draw, 50, 650, 0)] + [_num(draw, 1, 9999, 0) for _ in range(3)] + [_num(draw, 0.01 if dec else 1, 999, dec)]
+        if k > last_climb:
+            cl = None
         de = [_num(draw, 50, 650, 0), _num(draw, 1, 9999, 0), _num(draw, 0.01 if dec else 1, 999, dec)]
         rows.append({'fl': fl, 'cr': cr, 'cl': cl, 'de': de})
     masses = sorted(draw(st.lists(st.integers(1000, 600000), unique=True, min_size=3, max_size=3)))
@@ -1013,7 +1017,7 @@ def render_ptf(p: dict) -> str:
         cr = r['cr']
         cruise = ' ' * 27 if cr is None else f'  {cr[0]:>3}    {cr[1]:>5} {cr[2]:>5} {cr[3]:>5} '
         cl = r['cl']
-        climb = f'  {cl[0]:>3}    {cl[1]:>4}  {cl[2]:>4}  {cl[3]:>4}   {cl[4]:>5}  '
+        climb = ' ' * 35 if cl is None else f'  {cl[0]:>3}    {cl[1]:>4}  {cl[2]:>4}  {cl[3]:>4}   {cl[4]:>5}  '
         de = r['de']
         descent = f'  {de[0]:>3}   {de[1]:>4}   {de[2]:>5}'
         L.append(f'{r["fl"]:>3} |{cruise}|{climb}|{descent}')
@@ -1048,6 +1052,7 @@ def body_ptf(ctx: core.Ctx, case: dict):
     path.write_text(render_ptf(p))
     ncr = sum(1 for r in p['rows'] if r['cr'] is not None)
     ctx.label('ptf.cruise_blank_at_low_levels' if ncr < len(p['rows']) else 'ptf.cruise_everywhere',
+              'ptf.climb_blank_at_top_levels' if any(r['cl'] is None for r in p['rows']) else 'ptf.climb_everywhere',
               'ptf.blank_separators' if p['blank'] else 'ptf.no_separators',
               'ptf.decimals' if '.' in p['rows'][0]['cl'][4] else 'ptf.integers_only',
               f'ptf.rows.{"2-6" if len(p["rows"]) <= 6 else "7-30"}')
